@@ -340,6 +340,9 @@ Json genTopoSession(Rng &r, const std::string &tier) {
         }
         if (r.chance(0.35)) { Json f = Json::obj(); f.set("at", r.range(1, 20)); Json z = Json::arr(); z.push((long)r.below(n)); z.push((double)r.range(-1, 3) * 10); z.push((double)r.range(-1, 3) * 10); f.set("resize", z); fl.push(f); }
         if (fl.size()) o.set("faults", fl);
+        // single-axis runs: the coordinates of the other axis keep their grid values for the whole run, so that sides of
+        // different nodes (and the bends created on them) coincide exactly -- the tie cases of the scan-line code
+        { int ax = (int)r.below(10); if (ax < 2) o.set("x", false); else if (ax < 3) o.set("y", false); }
         ops.push(o);
     }
     s.set("ops", ops);
